@@ -1,4 +1,6 @@
 import Nsl.Props.C01
+import Nsl.Props.C01Storage
+import Nsl.Props.LowerOK
 /-!
 # C15 – global state persists exactly across invocation histories; VMs are isolated
 
@@ -96,6 +98,62 @@ theorem C15_history_refinement (M : Core.Module) (hM : ScalarCore M) (s : HostSt
       exact ⟨.cons (.invoke s i fn args v g' as hvm) r, p⟩
 
 #print axioms C15_history_refinement
+
+/-- The refinement holds with local arrays and structs as storage too (stage 2 of C01) … -/
+theorem C15_history_refinement_storage (M : Core.Module) (hM : StorageCore M) (s : HostState) (ops : List HostOp)
+    (outs : List HostOut) (s' : HostState) (hs : s.plain) (hops : ∀ op ∈ ops, op.plain)
+    (h : HostRun (InvRef M) s ops outs s') : HostRun (InvVM (lowerModule M)) s ops outs s' ∧ s'.plain := by
+  induction h with
+  | nil s => exact ⟨.nil s, hs⟩
+  | @cons s s1 s2 op out ops outs hstep _ ih =>
+    have hop := hops op (List.mem_cons_self ..)
+    have hrest : ∀ o ∈ ops, o.plain := fun o ho => hops o (List.mem_cons_of_mem _ ho)
+    cases hstep with
+    | set i n v =>
+      have h1 : (s.upd i (Map.set (s i) n v)).plain :=
+        HostState.plain_upd hs i (Sim.MapOK.set (hs i) n hop)
+      obtain ⟨r, p⟩ := ih h1 hrest
+      exact ⟨.cons (.set s i n v) r, p⟩
+    | get i n =>
+      obtain ⟨r, p⟩ := ih hs hrest
+      exact ⟨.cons (.get s i n) r, p⟩
+    | invoke i fn args v g' as hinv =>
+      obtain ⟨fuel, href⟩ := hinv
+      have hvm := C01_compile_correct_storage M hM fuel fn args (s i) v g' as hop (hs i) href
+      have hpl := (C01_globals_plain_storage M hM fuel fn args (s i) v g' as hop (hs i) href).1
+      obtain ⟨r, p⟩ := ih (HostState.plain_upd hs i hpl) hrest
+      exact ⟨.cons (.invoke s i fn args v g' as hvm) r, p⟩
+
+#print axioms C15_history_refinement_storage
+
+/-- … and for the OPTIMISED program of a scalar-core module: a store to a global that the optimiser forwards to a later
+load is still written, so what later invocations and `GetGlobal` see is unchanged. -/
+theorem C15_history_refinement_optimised (M : Core.Module) (hM : ScalarCore M) (hS : NoShadow M) (s : HostState)
+    (ops : List HostOp) (outs : List HostOut) (s' : HostState) (hs : s.plain) (hops : ∀ op ∈ ops, op.plain)
+    (h : HostRun (InvRef M) s ops outs s') :
+    HostRun (InvVM (Opt.optProgram (lowerModule M))) s ops outs s' ∧ s'.plain := by
+  induction h with
+  | nil s => exact ⟨.nil s, hs⟩
+  | @cons s s1 s2 op out ops outs hstep _ ih =>
+    have hop := hops op (List.mem_cons_self ..)
+    have hrest : ∀ o ∈ ops, o.plain := fun o ho => hops o (List.mem_cons_of_mem _ ho)
+    cases hstep with
+    | set i n v =>
+      have h1 : (s.upd i (Map.set (s i) n v)).plain :=
+        HostState.plain_upd hs i (Sim.MapOK.set (hs i) n hop)
+      obtain ⟨r, p⟩ := ih h1 hrest
+      exact ⟨.cons (.set s i n v) r, p⟩
+    | get i n =>
+      obtain ⟨r, p⟩ := ih hs hrest
+      exact ⟨.cons (.get s i n) r, p⟩
+    | invoke i fn args v g' as hinv =>
+      obtain ⟨fuel, href⟩ := hinv
+      have hvm := C01_opt_compile_correct M hM hS fuel fn args (s i) v g' as hop (hs i) href
+      have hpl := (C01_globals_plain M hM fuel fn args (s i) v g' as hop (hs i) href).1
+      obtain ⟨r, p⟩ := ih (HostState.plain_upd hs i hpl) hrest
+      exact ⟨.cons (.invoke s i fn args v g' as hvm) r, p⟩
+
+#print axioms C15_history_refinement_optimised
 
 /-- An operation on one VM never changes the globals of another VM. -/
 theorem C15_isolated (Inv : InvRel) (s : HostState) (op : HostOp) (out : HostOut) (s' : HostState)
